@@ -221,6 +221,12 @@ func (c *Conn) OpenStream(ctx context.Context) (transport.Stream, error) {
 	c.other.mu.Lock()
 	c.other.streams = append(c.other.streams, rs)
 	c.other.mu.Unlock()
+	if c.isDone() || c.other.isDone() {
+		// closed while the stream was being created: Close() may have missed it
+		ls.Close()
+		rs.Close()
+		return nil, ErrClosed
+	}
 	select {
 	case c.other.acceptQ <- rs:
 		return ls, nil
